@@ -19,6 +19,8 @@ def stored_names(body) -> set[str]:
     out = set()
     for stmt in body:
         for n in ast.walk(stmt):
+            if isinstance(n, (ast.Yield, ast.YieldFrom)):
+                out.add("_yield")  # the yielded sequence grows (generators under contract)
             if isinstance(n, ast.Name) and isinstance(n.ctx, (ast.Store, ast.Del)):
                 out.add(n.id)
             elif isinstance(n, ast.Call) and isinstance(n.func, ast.Attribute) and n.func.attr in _mutators():
